@@ -1,19 +1,26 @@
 SPEC = {
     "corr": [{"kind": "json", "quick": 10000, "thorough": 1000000},
              {"kind": "nf5", "quick": 3000, "thorough": 200000},
+             # sFlow: the model's rendering of sflowTree vs the real json.Marshal(datagram), byte for byte
+             {"kind": "sflow", "quick": 8000, "thorough": 400000},
              # what is actually handed to the message queue by the real workers (1..64 of them): every payload must be the solo JSON of its datagram
              {"kind": "pipeline", "quick": 48, "thorough": 1600, "runner": {"pkg": "./vflow", "test": "TestVerifPipeline", "race": False}}],
     "rule": "json: IPFIX / NetFlow v9 messages built directly from typed values (every Interpret result kind x content "
             "class: plain / quotes+backslashes / controls / HTML / multi-byte and invalid UTF-8 / random octets; NaN, +-Inf, "
             "64-bit extremes; IPv4, IPv6, v4-mapped and odd-length addresses), marshalled by the real JSONMarshal, compared "
             "byte-for-byte with the model; oracle = json.Valid + the re-parsed document equals the value tree the message was "
-            "built from. nf5: generated v5 datagrams decoded and marshalled by the real code. non-trivial = the implementation "
+            "built from. nf5: generated v5 datagrams decoded and marshalled by the real code. sflow: generated sFlow v5 datagrams "
+            "(flow / counter / unknown samples, all record kinds, IPv4 / IPv6 agents and next hops, sampled Ethernet / 802.1Q / "
+            "IPv4 / IPv6 / TCP / UDP / ICMP headers) decoded by the real decoder and marshalled by the real json.Marshal, compared "
+            "byte-for-byte with render (sflowTree d). non-trivial = the implementation "
             "produced a document; distinct = distinct case line",
     "assumptions": [
         "float text: strconv.FormatFloat(f,'E',-1,bits) is not modelled; its text is an input of the model, assumed to be an "
         "RFC 8259 number for a finite bit pattern and one of NaN/+Inf/-Inf otherwise (hypothesis FloatOk of the validity "
         "theorems; checked on every float the correspondence generates)",
-        "sFlow is published through encoding/json (library); its output is not covered by the theorems",
+        "sFlow is published through encoding/json (library code): that render (sflowTree d) equals what json.Marshal emits is "
+        "established by the byte-for-byte correspondence (kinds sflow here, sflowf / dissect in C07 / C18), not proved; what is "
+        "proved is that this rendering is valid JSON deriving sflowTree d",
         "Go string/slice semantics and encoding/json's appendString as transcribed in Vflow.Model.JsonOut (tied by the "
         "byte-for-byte correspondence)",
     ],
@@ -26,13 +33,18 @@ META = {
             "with 20 named members, addresses dotted) - the tree is the faithfulness statement; (2) ..._marshal_valid - that text "
             "derives exactly that tree in an RFC 8259 grammar (DVal), given FloatOk for float fields (none needed for v5); "
             "(3) leaves: natDigits/intDigits are JSON numbers and decode10 (natDigits n) = n; escString s (Go's HTML-safe escaping) "
-            "is a JSON string body for every octet string and the identity on plain ASCII; address/MAC/hex text needs no escaping. "
+            "is a JSON string body for every octet string and the identity on plain ASCII; address/MAC/hex text needs no escaping; "
+            "(4) sFlow (published as json.Marshal(datagram)): the datagram is mapped to an explicit tree sflowTree (Go field names in "
+            "declaration order, map keys sorted, []byte as base64, net.IP via MarshalText, MAC / address strings, exact decimal "
+            "numbers, null for absent layers) and sflow_tree_wf / sflow_json_valid / sflow_published_valid prove, for every datagram "
+            "value, that its rendering is valid JSON deriving exactly that tree; equality of the rendering with encoding/json's output "
+            "is by correspondence only. "
             "The encoders' fixed text and member order are regenerated from the Go source (factgen write programs) and obliged, by "
             "decide, to equal the specification programs up to merging adjacent literal writes. The model is tied to the real "
             "JSONMarshal byte-for-byte by correspondence plus a json.Valid / re-parse oracle.",
     "ref": "DESIGN.md §6 C05",
-    "note": "Assumed, not proved: the float text (FormatFloat) is an input satisfying FloatOk; sFlow goes through encoding/json "
-            "(library) and is covered only by the sFlow correspondence elsewhere. Trusted: Lean kernel; the hand-written model "
+    "note": "Assumed, not proved: the float text (FormatFloat) is an input satisfying FloatOk; for sFlow, that encoding/json (library) "
+            "emits exactly render (sflowTree d) - tied byte-for-byte by the sflow / sflowf / dissect correspondences, not proved. Trusted: Lean kernel; the hand-written model "
             "Vflow.Model.JsonOut / V5 (tied byte-for-byte to the Go encoders); factgen; the harness.",
     "technique": "Lean 4 proofs (structural induction; render/grammar soundness; lexical lemmas by case analysis over all 256 octets) "
                  "over write programs regenerated from the Go AST + byte-for-byte differential correspondence + json.Valid/re-parse oracle",
